@@ -872,6 +872,20 @@ from panicapi import rule_panicapi  # noqa: E402
 PROPERTIES["C08"]["rules"] += [("PANICAPI", lambda ctx: rule_panicapi(ctx.lib))]
 PROPERTIES["C08"]["explanation"] += " (PANICAPI) Dependency functions that are known, by reading them, to panic on a condition of the host environment (plotly::Plot::show without an HTML viewer) are called only inside the closure handed to catch_unwind."
 
+from expsup import rule_uexptab  # noqa: E402
+
+for _pid in ("C08", "C10"):
+    PROPERTIES[_pid]["rules"] += [("UEXPTAB", lambda ctx: rule_uexptab(ctx.lib))]
+    PROPERTIES[_pid]["explanation"] += " (UEXPTAB) Every UnicodeExponent lexeme the tokenizer can produce is listed in the parser's unicode_exponent_to_int, whose fall-through arm is unreachable!()."
+
+from printcast import rule_printcast  # noqa: E402
+
+PROPERTIES["C15"]["rules"] += [("PRINTCAST", lambda ctx: rule_printcast(ctx.lib))]
+PROPERTIES["C15"]["explanation"] += " (PRINTCAST) No function that builds the echo casts a float to an integer with `as` without testing integrality: a spelling chosen from the truncated value prints another number."
+
+PROPERTIES["C09"]["rules"] += [("VIEWREAD", lambda ctx: rule_viewread(ctx.lib))]
+PROPERTIES["C09"]["explanation"] += " (VIEWREAD) Every element read of the shared deque in list.rs is offset by the view window, so head/tail/element access return the element the source denotes whether or not the storage is shared (seed C09-5: `head(tail([10, 20, 30]))` = 10)."
+
 NOT_APPLICABLE = {
     "C03": "numerical agreement of conversion factors over 500 units is a statement about run-time values; no structural clause is a necessary condition that is not already covered under C04/C11/C12 (static analysis cannot bound the arithmetic)",
     "C14": "a statement about the decimal rendering of every f64 under every format setting; the code delegates to pretty_dtoa/num_format and no structural clause of Number::pretty_print_with_dtoa_config can be decided without evaluating it",
